@@ -60,7 +60,16 @@ func init() {
 		specs = append(specs, FamSpec{Prop: "C04", Profile: Profile{JWTAccess: true, IDKey: "rsa1", RTLifespan: 7200}, Depth: rsDepth, MaxGrants: 2,
 			Grants:   []Op{{Op: "authz", Client: "A", Flow: "code"}, {Op: "password", Client: "A"}, {Op: "device", Client: "A"}},
 			RedeemBy: []string{"owner"}, RefreshBy: []string{"owner", "other"}, RevokeBy: []string{"owner"}, Hints: []string{""}, Advances: []int{3700}})
-		r.Bounds = map[string]any{"history_depth": depth, "max_grants": 2, "strategies": []string{"hmac", "jwt (ES256)", fmt.Sprintf("jwt (RS256, deterministic signatures) to depth %d", rsDepth)}, "refresh_lifespans": []string{"30d", "2h"},
+		// grants started from a pushed authorization request, and from a second presentation of the same request_uri:
+		// should a second authorization start, it is an independent grant with a token family of its own
+		parDepth := depth
+		if !r.Quick() {
+			parDepth = depth - 1
+		}
+		specs = append(specs, FamSpec{Prop: "C04", Profile: Profile{RTLifespan: 7200}, Depth: parDepth, MaxGrants: 2,
+			Grants:   []Op{{Op: "authz", Client: "A", Flow: "par"}, {Op: "authz", Client: "A", Flow: "par-again"}},
+			RedeemBy: []string{"owner"}, RefreshBy: []string{"owner"}, RevokeBy: []string{"owner"}, Hints: []string{""}, Advances: []int{3700}})
+		r.Bounds = map[string]any{"history_depth": depth, "max_grants": 2, "pushed_requests": fmt.Sprintf("one further search to depth %d over grants from a pushed request and from the same request_uri presented again", parDepth), "strategies": []string{"hmac", "jwt (ES256)", fmt.Sprintf("jwt (RS256, deterministic signatures) to depth %d", rsDepth)}, "refresh_lifespans": []string{"30d", "2h"},
 			"alphabet": "grant(code A, hybrid code+token A, password A, device A, oidc code P) redeem(owner) refresh(every rt ever seen, owner|other) revoke(tok, owner) advance(3700s|7300s)"}
 		r.Rule = "explicit-state BFS over API histories with global deduplication on (store dump, clock, model); every refresh token ever issued stays in the alphabet, so replay of any generation is an ordinary transition; every transition is followed by introspection of every token"
 		r.Assumptions = []string{"model: a refresh token is exchanged at most once; exchange rotates it and its sibling access token; presenting a used one (any authenticated client, expired or not) answers invalid_grant and kills all token-endpoint-issued tokens of the grant; other grants untouched",
